@@ -633,6 +633,16 @@ class OpsMixin(object):
             return Num(ep.app(pth, nums))
         if isinstance(fn, DerivV):
             return self.call_deriv(fn, args, node)
+        if isinstance(fn, Num) and not fn.rf.df:
+            # the result of calling an opaque object with numbers was taken for a number (f(r)); being called itself, it
+            # was an object after all (spline.derivative(2)): it is the opaque result of that call
+            st = fn.rf.n.single_term()
+            if st is not None and st[1] == 1:
+                fs = list(st[0].f)
+                if len(fs) == 1 and isinstance(fs[0][0], ep.AppA) and fs[0][0].dorder == 0 and fs[0][1] == ep.ONE:
+                    a = fs[0][0]
+                    obj = Opaque(("call", a.fn, tuple(Num(x).key() for x in a.args)))
+                    return self.call(obj, args, kwargs, node, env)
         if isinstance(fn, Unknown):
             self.log_event(("eval", ("unknown", fn.tag)))
             return Unknown(fn.tag + "()")
